@@ -447,6 +447,23 @@ else:
             break
 
 # ---- inputs with a header: -cdf must be exactly -cd
+def same_run(a, b):
+    """Equality of two runs of the decompressor.  When the stream is rejected
+    (status 1) the wording of the one-line message and the amount of output
+    already written depend on how far the worker threads got, also between two
+    runs of the very same command; then only the status, the presence of one
+    diagnostic (not the sniff's "not a valid bzip2 file") and prefix-related
+    outputs are required."""
+    if a[0] != b[0]:
+        return False
+    if a[0] == 1:
+        for r in (a, b):
+            if r[2].count(b'\n') != 1 or b'not a valid bzip2 file' in r[2]:
+                return False
+        return a[1].startswith(b[1]) or b[1].startswith(a[1])
+    return a == b
+
+
 for tag, d in hdr_inputs:
     for mode in ('file', 'pipe', 'operand'):
         for ps in [None] + pseeds[:1]:
@@ -459,7 +476,7 @@ for tag, d in hdr_inputs:
             evaluations += 1
             distinct.add(hashlib.sha1(d).hexdigest() + 'hdr' + mode + str(ps))
             dist['mode']['hdr-' + mode] = dist['mode'].get('hdr-' + mode, 0) + 1
-            if a != b:
+            if not same_run(a, b):
                 ck.violation(
                     'input with a stream header: -cdf and -cd differ '
                     '(status %r vs %r, %d vs %d output bytes, stderr %r vs %r)' % (
